@@ -439,3 +439,30 @@ mutant('C15', 'dumbbell ambiguous site accepted', PTF, "        if len(ptd_id) =
 mutant('C15', 'substitutional moves atom to front', PTF, "    index.pop(ptd_id)\n    index.append(ptd_id)\n    d_system = System(box=deepcopy(system.box), pbc=deepcopy(system.pbc),\n                      atoms=deepcopy(system.atoms[index]), symbols=system.symbols)\n    \n    # Add property old_id with each atom's original id\n    if 'old_id' not in d_system.atoms_prop():\n        d_system.atoms.old_id = index\n    \n    # Set values for new atom\n    for prop in d_system.atoms_prop():\n        if prop == 'atype':\n            d_system.atoms.atype[-1] = atype", "    index.pop(ptd_id)\n    index.insert(0, ptd_id)\n    d_system = System(box=deepcopy(system.box), pbc=deepcopy(system.pbc),\n                      atoms=deepcopy(system.atoms[index]), symbols=system.symbols)\n    \n    # Add property old_id with each atom's original id\n    if 'old_id' not in d_system.atoms_prop():\n        d_system.atoms.old_id = index\n    \n    # Set values for new atom\n    for prop in d_system.atoms_prop():\n        if prop == 'atype':\n            d_system.atoms.atype[0] = atype", 'COUNT-ORDER')
 mutant('C15', 'vacancy shares atoms with input', PTF, "    d_system = System(box=deepcopy(system.box), pbc=deepcopy(system.pbc),\n                      atoms=deepcopy(system.atoms[index]), symbols=system.symbols)\n    \n    # Add property old_id with each atom's original id\n    if 'old_id' not in d_system.atoms_prop():\n        d_system.atoms.old_id = index\n    \n    return d_system", "    d_system = System(box=system.box, pbc=system.pbc,\n                      atoms=deepcopy(system.atoms[index]), symbols=system.symbols)\n    \n    # Add property old_id with each atom's original id\n    if 'old_id' not in d_system.atoms_prop():\n        d_system.atoms.old_id = index\n    \n    return d_system", 'UNTOUCHED')
 mutant('C15', 'point() drops scale for interstitial', PTF, "return interstitial(system, pos=pos, scale=scale, atol=atol, **kwargs)", "return interstitial(system, pos=pos, atol=atol, **kwargs)", 'DISPATCH')
+
+# ------------------------------------------------------------------ C12
+ISOF = 'atomman/defect/IsotropicVolterraDislocation.py'
+STRF = 'atomman/defect/Stroh.py'
+VDF = 'atomman/defect/VolterraDislocation.py'
+SVF = 'atomman/defect/solve_volterra_dislocation.py'
+mutant('C12', 'regress n unit check measures m', VDF, "np.isclose(np.linalg.norm(axis), 1.0, atol=tol, rtol=0.0)", "np.isclose(np.linalg.norm(m), 1.0, atol=tol, rtol=0.0)", 'FRAME')
+mutant('C12', 'isotropic strain transform not transposed', ISOF, "        transform = np.array([self.m, self.n, self.ξ]).T\n\n        # Transform strains", "        transform = np.array([self.m, self.n, self.ξ])\n\n        # Transform strains", 'ISOTROPIC')
+mutant('C12', 'isotropic screw strain sign', ISOF, "strain[..., 0, 2] = strain[..., 2, 0] = -b_s * y / (4 * np.pi * (x**2 + y**2))", "strain[..., 0, 2] = strain[..., 2, 0] = b_s * y / (4 * np.pi * (x**2 + y**2))", 'ISOTROPIC')
+mutant('C12', 'isotropic sigma_zz without nu', ISOF, "stress[..., 2, 2] = nu * (stress[..., 0, 0] + stress[..., 1, 1])", "stress[..., 2, 2] = (stress[..., 0, 0] + stress[..., 1, 1])", 'ISOTROPIC')
+mutant('C12', 'isotropic disp_n log coefficient', ISOF, "(-(1 - 2 * nu) / (4 * (1 - nu)) * np.log(x**2 + y**2)", "(-(1 - 2 * nu) / (2 * (1 - nu)) * np.log(x**2 + y**2)", 'ISOTROPIC')
+mutant('C12', 'isotropic nu formula', ISOF, "self.__nu = (3 * bulk - 2 * self.mu) / (2 * (3 * bulk + self.mu))", "self.__nu = (3 * bulk - 2 * self.mu) / (2 * (3 * bulk - self.mu))", 'ISOTROPIC')
+mutant('C12', 'theta cut not folded back', ISOF, "        theta[(theta >= np.pi)] -= 2 * np.pi\n", "", 'ISOTROPIC')
+mutant('C12', 'K tensor edge coefficient', ISOF, "K_e = self.mu / (1 - self.nu)", "K_e = self.mu / (1 + self.nu)", 'ISOTROPIC')
+mutant('C12', 'stroh strain prefactor', STRF, "strain = 1 / (4 * np.pi * ii) * np.einsum", "strain = 1 / (2 * np.pi * ii) * np.einsum", 'STROH')
+benign('C12', 'stroh stress contraction over the other member of a minor-symmetric pair', STRF, "'a, ijkl, alk, ...a -> ...ij'", "'a, ijkl, akl, ...a -> ...ij'")
+mutant('C12', 'stroh eta roles swapped', STRF, "        x = np.dot(pos, self.m)\n        y = np.dot(pos, self.n)\n\n        return (x + np.outer(self.p, y)).T", "        x = np.dot(pos, self.n)\n        y = np.dot(pos, self.m)\n\n        return (x + np.outer(self.p, y)).T", 'STROH')
+mutant('C12', 'stroh NB sign', STRF, "NB = -np.linalg.inv(nn)", "NB = np.linalg.inv(nn)", 'STROH')
+mutant('C12', 'stroh mn uses n twice', STRF, "mn = np.einsum('i,ijkl,l', self.m, Cijkl, self.n)", "mn = np.einsum('i,ijkl,l', self.n, Cijkl, self.n)", 'STROH')
+mutant('C12', 'stroh k normalisation', STRF, "k = 1. / (2. * np.einsum('si,si->s', A, L))", "k = 1. / (np.einsum('si,si->s', A, L))", 'STROH')
+mutant('C12', 'stroh K sign vector differs', STRF, "        updn = np.array([1, -1, 1, -1, 1, -1])\n\n        # Compute K_tensor", "        updn = np.array([1, 1, 1, -1, -1, -1])\n\n        # Compute K_tensor", 'STROH')
+mutant('C12', 'burgers rotated with transpose', VDF, "burgers = transform.dot(burgers)", "burgers = transform.T.dot(burgers)", 'FRAME')
+mutant('C12', 'burgers round-off absolute', VDF, "np.isclose(burgers / np.abs(burgers).max(), 0.0, atol = tol)", "np.isclose(burgers, 0.0, atol = tol)", 'FRAME')
+mutant('C12', 'find_transform rows order', VDF, "transform = np.array([m_axis, n_axis, ξ_axis])", "transform = np.array([n_axis, m_axis, ξ_axis])", 'FRAME')
+mutant('C12', 'xi = n x m', VDF, "self.__ξ = np.cross(m, n)", "self.__ξ = np.cross(n, m)", 'FRAME')
+mutant('C12', 'fallback drops axes', SVF, "                                            transform=transform, axes=axes, box=box,\n                                            m=m, n=n", "                                            transform=transform, box=box,\n                                            m=m, n=n", 'DISPATCH')
+mutant('C12', 'fallback on any exception', SVF, "    except ValueError:", "    except Exception:", 'DISPATCH')
